@@ -134,6 +134,99 @@ func substExpr(info *types.Info, e ast.Expr, bind map[types.Object]ast.Expr) ast
 	return sub(e)
 }
 
+// deferredForward: for the operand of a defer statement that calls a forwarding helper, the inner call as
+// it will execute when the frame returns — or nil when deferring the helper is not the same as deferring a
+// closure around the inner call. A defer statement evaluates the helper's arguments at once; that makes no
+// difference exactly when every argument is the address of a variable (`&x`, read through `*p` in the
+// helper, i.e. at exit) or a variable that is assigned once in the enclosing function, before the defer.
+// `*&x` in the substituted call is then written `x`.
+func (w *World) deferredForward(p *packages.Package, call *ast.CallExpr) *ast.CallExpr {
+	in := w.forwardedCall(p, call)
+	if in == nil {
+		return nil
+	}
+	info := p.TypesInfo
+	var encl *ast.FuncDecl
+	for _, f := range p.Syntax {
+		for _, d := range f.Decls {
+			if fd, ok := d.(*ast.FuncDecl); ok && fd.Body != nil && fd.Pos() <= call.Pos() && call.End() <= fd.End() {
+				encl = fd
+			}
+		}
+	}
+	if encl == nil {
+		return nil
+	}
+	assignedOnce := func(o types.Object) bool {
+		n := 0
+		ast.Inspect(encl.Body, func(x ast.Node) bool {
+			switch s := x.(type) {
+			case *ast.AssignStmt:
+				for _, l := range s.Lhs {
+					if id, ok := l.(*ast.Ident); ok && (info.Defs[id] == o || info.Uses[id] == o) {
+						n++
+						if s.Pos() > call.Pos() {
+							n++ // assigned after the defer statement
+						}
+					}
+				}
+			case *ast.IncDecStmt:
+				if id, ok := s.X.(*ast.Ident); ok && info.Uses[id] == o {
+					n += 2
+				}
+			case *ast.UnaryExpr:
+				if id, ok := s.X.(*ast.Ident); ok && s.Op == token.AND && info.Uses[id] == o {
+					n += 2 // address taken: may be written through a pointer
+				}
+			}
+			return true
+		})
+		return n == 1
+	}
+	for _, a := range call.Args {
+		a = ast.Unparen(a)
+		if u, ok := a.(*ast.UnaryExpr); ok && u.Op == token.AND {
+			if _, isId := ast.Unparen(u.X).(*ast.Ident); isId {
+				continue
+			}
+			return nil
+		}
+		if id, ok := a.(*ast.Ident); ok {
+			if o, isVar := info.Uses[id].(*types.Var); isVar && !o.IsField() && o.Parent() != o.Pkg().Scope() && assignedOnce(o) {
+				continue
+			}
+		}
+		return nil
+	}
+	if sel, ok := call.Fun.(*ast.SelectorExpr); ok {
+		// a method helper: the receiver is evaluated at the defer statement, too
+		id, isId := ast.Unparen(sel.X).(*ast.Ident)
+		if !isId {
+			return nil
+		}
+		if o, isVar := info.Uses[id].(*types.Var); !isVar || !assignedOnce(o) {
+			if _, isPkg := info.Uses[id].(*types.PkgName); !isPkg {
+				return nil
+			}
+		}
+	}
+	// *&x -> x
+	var simp func(e ast.Expr) ast.Expr
+	simp = func(e ast.Expr) ast.Expr {
+		if st, ok := e.(*ast.StarExpr); ok {
+			if u, ok := ast.Unparen(st.X).(*ast.UnaryExpr); ok && u.Op == token.AND {
+				return u.X
+			}
+		}
+		return e
+	}
+	out := &ast.CallExpr{Fun: in.Fun, Lparen: in.Lparen, Ellipsis: in.Ellipsis, Rparen: in.Rparen}
+	for _, a := range in.Args {
+		out.Args = append(out.Args, simp(a))
+	}
+	return out
+}
+
 // expandForwarding copies a statement list with every statement-level call of a forwarding helper replaced by
 // the inner call (for the path rules, whose sites are statements of the frame entry points).
 func (w *World) expandForwarding(p *packages.Package, list []ast.Stmt) []ast.Stmt {
@@ -168,6 +261,14 @@ func (w *World) expandForwarding(p *packages.Package, list []ast.Stmt) []ast.Stm
 					// the synthesized call needs a callee the resolver can find: Fun keeps its original nodes
 					return &ast.ExprStmt{X: in}
 				}
+			}
+		case *ast.DeferStmt:
+			// `defer helper(t, &a, &b)` with helper = `t.M(*pa, *pb)` is `defer func() { t.M(a, b) }()`
+			if in := w.deferredForward(p, x.Call); in != nil {
+				changed = true
+				lit := &ast.FuncLit{Type: &ast.FuncType{Func: x.Call.Pos(), Params: &ast.FieldList{}},
+					Body: &ast.BlockStmt{Lbrace: x.Call.Pos(), List: []ast.Stmt{&ast.ExprStmt{X: in}}, Rbrace: x.Call.End()}}
+				return &ast.DeferStmt{Defer: x.Defer, Call: &ast.CallExpr{Fun: lit, Lparen: x.Call.Lparen, Rparen: x.Call.Rparen}}
 			}
 		case *ast.BlockStmt:
 			return blk(x)
